@@ -335,8 +335,8 @@ def struct_size(text):
 
 def unpack_values(text, item):
     """the scalars struct.unpack reads from one item, as the driver reports them; None if struct cannot"""
-    if "p" in text:
-        return None            # Pascal strings are interpreted, not just read
+    if "p" in text or "?" in text:
+        return None            # Pascal strings and bools are interpreted, not just read
     try:
         vals = struct.unpack(text, item)
     except struct.error:
